@@ -243,6 +243,9 @@ int cmd_games(const Args& a)
                         if (castling(c) != NO_CASTLING || p.piece_at(to(c)) != NO_PIECE) continue;
                         PieceKind k = make_piece_kind(p.piece_at(from(c)));
                         if (k == KNIGHT || k == BISHOP || k == QUEEN) return c;
+                        // a side without castling rights also shuffles with its king and rooks (their moves change no right, but they
+                        // rewrite the rights part of the key: the recurrence then straddles a key update)
+                        if ((k == ROOK || k == KING) && !(p.castling_rights() & CASTLING_RIGHTS[p.color()]) && rng() % 2) return c;
                     }
                     return NO_MOVE;
                 };
@@ -274,7 +277,8 @@ int cmd_games(const Args& a)
                     if (m == NO_MOVE) m = pick(p, mv, rng, rng() % 3 ? 6 : 4, last_own[p.color()]);
                     bool pawn = castling(m) == NO_CASTLING && make_piece_kind(p.piece_at(from(m))) == PAWN;
                     bool special = castling(m) != NO_CASTLING || promotion(m) != NO_PIECE_KIND || (pawn && to(m) == p.enpassant_square()) ||
-                                   (castling(m) == NO_CASTLING && p.piece_at(to(m)) != NO_PIECE && rng() % 4 == 0);
+                                   (castling(m) == NO_CASTLING && p.piece_at(to(m)) != NO_PIECE &&
+                                    (rng() % 4 == 0 || make_piece_kind(p.piece_at(to(m))) == ROOK));
                     if (special) { shuffle_left = 8; shuffle_mv[0] = shuffle_mv[1] = NO_MOVE; }
                 }
             }
